@@ -299,7 +299,8 @@ def check_wrapping(c, res, reverse=False):
             if node is None:
                 res.clause("c15.caf.none")
                 if already_valid and _kids_markless_ok(model, tname, kids):
-                    res.violate("c15.caf.incomplete", case, None, "content is already valid")
+                    # "... or nothing": the property allows create_and_fill to give up; counted, not reported
+                    res.outcome("caf:none-for-already-valid-content")
                 continue
             res.clause("c15.caf.some")
             res.nontrivial += 1
